@@ -3,7 +3,7 @@ NEXT GNext
 CONSTANTS
   GenRole = "node"
   GenActs <- R1_Acts
-  MaxSteps = 7
+  MaxSteps = 8
   DrainMax = 0
   UseCls = FALSE
   DrawStreams <- R_DrawStreams
@@ -26,6 +26,7 @@ CONSTANTS
   BroadcastDedup = TRUE
   FIX_PruneEmpty = TRUE
   AllowLate = TRUE
+  AtomicCheck = FALSE
   FlipAccounts = {"A", "B"}
   Self = "A"
   LocalPats = {}
